@@ -133,6 +133,17 @@ class SMIO(GameIO):
 
         return SMMapSet.read_file(path)
 
+    def read_api(self, data, layout=None, raw_newlines=False):
+        from reamber.sm.SMMapSet import SMMapSet
+
+        text = data.decode("utf8")
+        if not raw_newlines:
+            text = text.replace("\r\n", "\n")
+        return SMMapSet.read(text if len(data) % 2 else text.split("\n"))
+
+    def write_api(self, obj, layout=None) -> bytes:
+        return obj.write().encode("utf8")
+
     def write(self, obj, path, layout=None):
         return obj.write_file(path)
 
